@@ -1324,7 +1324,9 @@ def forwarding_ok(fn, op):
 
 
 def run(repo):
-    """-> text of Generated/Algos.lean; FAILURES lists the bodies that were not translated"""
+    """-> text of Generated/Algos.lean; FAILURES lists the bodies that were not translated.
+    The file is built section by section; a section whose items are not found (or whose shape
+    check fails) is skipped and only the tie theorems about ITS definitions stop compiling."""
     sigs = {}
     del FAILURES[:]
     out = [HEADER]
@@ -1333,12 +1335,32 @@ def run(repo):
     lsu = trait_fns(lib, "LinearScaledUnit")
     qf = trait_fns(lib, "Quantity")
     hru = trait_fns(lib, "HasRefUnit")
+    uf = trait_fns(lib, "Unit")
+    mp = os.path.join(repo, "qty-macros/src/quantity_attr_helper.rs")
+    mt = tokenize(open(mp, encoding="utf-8").read())
+    where = "qty-macros/src/quantity_attr_helper.rs"
+    tv3 = {"TL": "U", "TR": "V", "TO": "W"}
+
+    def section(fn, on_fail=None):
+        mark = len(out)
+        try:
+            fn()
+        except (Untranslatable, ParseError, IndexError, KeyError) as e:
+            del out[mark:]
+            msg = f"{type(e).__name__}: {e}".replace("\\", "/").replace('"', "'")
+            FAILURES.append(msg)
+            out.append(f"/- NOT TRANSLATED (section skipped): {msg} -/")
+            if on_fail:
+                out.extend(on_fail(msg))
+            out.append("")
 
     def one(fns, trait, name, self_ty, tables=None):
-        if name not in fns or len(fns[name]) != 1:
-            raise Untranslatable(f"src/lib.rs: {trait}::{name} not found (or defined twice)")
-        out.append(translate_fn(sigs, "src/lib.rs", trait, name, fns[name][0], tables or {"Self": "T"}, self_ty, tvT))
-        out.append("")
+        def go():
+            if name not in fns or len(fns[name]) != 1:
+                raise Untranslatable(f"src/lib.rs: {trait}::{name} not found (or defined twice)")
+            out.append(translate_fn(sigs, "src/lib.rs", trait, name, fns[name][0], tables or {"Self": "T"}, self_ty, tvT))
+            out.append("")
+        section(go)
 
     for n in ("ratio", "from_scale", "is_ref_unit"):
         one(lsu, "LinearScaledUnit", n, ("unit", "T"))
@@ -1348,78 +1370,86 @@ def run(repo):
         one(hru, "HasRefUnit", n, ("qty", "T"))
 
     # `impl HasRefUnit for AmountT`: `_fit` is the identity
-    j = find_block(lib, ["impl", "HasRefUnit", "for", "AmountT"])
-    if j < 0:
-        raise Untranslatable("src/lib.rs: impl HasRefUnit for AmountT not found")
-    fns = functions_in(lib, j + 1, matching(lib, j))
-    if set(fns) != {"_fit"}:
-        raise Untranslatable(f"src/lib.rs: impl HasRefUnit for AmountT overrides {sorted(fns)}, expected only _fit")
-    try:
-        b = parse_block(fns["_fit"][0][2])
-        ps = parse_params(fns["_fit"][0][0])
-    except ParseError as e:
-        raise Untranslatable(f"src/lib.rs: AmountT::_fit: {e}")
-    if b != ("block", [], ("path", [ps[0][0]])) or len(ps) != 1:
-        raise Untranslatable("src/lib.rs: `impl HasRefUnit for AmountT`: `_fit` is not the identity")
-    out.append("/-- `impl HasRefUnit for AmountT { fn _fit(amount) -> Self { amount } }` was checked to be the identity -/")
-    out.append("def amountFitIsIdentity : Bool := true")
-    out.append("")
-    out.append("/-- `<Out as HasRefUnit>::_fit`: the default method, or the identity override of `AmountT` -/")
-    out.append("def fitOf (R : Arith A) (T : QT A U) (x : A) : Res (Q A U) :=")
-    out.append("  match T.fitIdentity with")
-    out.append("  | some mk => pure (mk x T.ref)")
-    out.append("  | none => HasRefUnit._fit R T x")
-    out.append("")
+    def amount_impl():
+        j = find_block(lib, ["impl", "HasRefUnit", "for", "AmountT"])
+        if j < 0:
+            raise Untranslatable("src/lib.rs: impl HasRefUnit for AmountT not found")
+        fns = functions_in(lib, j + 1, matching(lib, j))
+        if set(fns) != {"_fit"}:
+            raise Untranslatable(f"src/lib.rs: impl HasRefUnit for AmountT overrides {sorted(fns)}, expected only _fit")
+        try:
+            b = parse_block(fns["_fit"][0][2])
+            ps = parse_params(fns["_fit"][0][0])
+        except ParseError as e:
+            raise Untranslatable(f"src/lib.rs: AmountT::_fit: {e}")
+        if b != ("block", [], ("path", [ps[0][0]])) or len(ps) != 1:
+            raise Untranslatable("src/lib.rs: `impl HasRefUnit for AmountT`: `_fit` is not the identity")
+        out.append("/-- `impl HasRefUnit for AmountT { fn _fit(amount) -> Self { amount } }` was checked to be the identity -/")
+        out.append("def amountFitIsIdentity : Bool := true")
+        out.append("")
+        out.append("/-- `<Out as HasRefUnit>::_fit`: the default method, or the identity override of `AmountT` -/")
+        out.append("def fitOf (R : Arith A) (T : QT A U) (x : A) : Res (Q A U) :=")
+        out.append("  match T.fitIdentity with")
+        out.append("  | some mk => pure (mk x T.ref)")
+        out.append("  | none => HasRefUnit._fit R T x")
+        out.append("")
+
+    section(amount_impl, lambda msg: [
+        "def amountFitIsIdentity : Bool := false",
+        "def fitOf (R : Arith A) (T : QT A U) (x : A) : Res (Q A U) :=",
+        f'  untranslatable "{msg}"'])
 
     # operator templates of the macro
-    mp = os.path.join(repo, "qty-macros/src/quantity_attr_helper.rs")
-    mt = tokenize(open(mp, encoding="utf-8").read())
-    where = "qty-macros/src/quantity_attr_helper.rs"
-    tv3 = {"TL": "U", "TR": "V", "TO": "W"}
-
     def template(fn_name, op, lean_name, rhs_same):
-        impls = impl_headers(quote_fns(mt, fn_name, where))
-        if len(impls) != 4:
-            raise Untranslatable(f"{where}: {fn_name} generates {len(impls)} impls, expected 4 (owned/borrowed forms)")
-        main = impls[0][1].get(op)
-        if not main or len(main) != 1:
-            raise Untranslatable(f"{where}: {fn_name}: first impl has no fn {op}")
-        for hd, fns_ in impls[1:]:
-            f = fns_.get(op)
-            if not f or not forwarding_ok(f[0], op):
-                raise Untranslatable(f"{where}: {fn_name}: `{hd}` does not forward to the owned operator")
-        tables = {"Self": "TL", "Self::Output": "TO", "#lhs_qty_ident": "TL", "#qty_ident": "TL",
-                  "#rhs_qty_ident": "TL" if rhs_same else "TR"}
-        if rhs_same:
-            tv = {"TL": "U", "TO": "W"}
-        else:
-            tv = tv3
-        out.append(translate_fn(sigs, where, fn_name, op, main[0], tables, ("qty", "TL"), tv, lean_name=lean_name))
-        out.append("")
+        def go():
+            impls = impl_headers(quote_fns(mt, fn_name, where))
+            if len(impls) != 4:
+                raise Untranslatable(f"{where}: {fn_name} generates {len(impls)} impls, expected 4 (owned/borrowed forms)")
+            main = impls[0][1].get(op)
+            if not main or len(main) != 1:
+                raise Untranslatable(f"{where}: {fn_name}: first impl has no fn {op}")
+            for hd, fns_ in impls[1:]:
+                f = fns_.get(op)
+                if not f or not forwarding_ok(f[0], op):
+                    raise Untranslatable(f"{where}: {fn_name}: `{hd}` does not forward to the owned operator")
+            tables = {"Self": "TL", "Self::Output": "TO", "#lhs_qty_ident": "TL", "#qty_ident": "TL",
+                      "#rhs_qty_ident": "TL" if rhs_same else "TR"}
+            tv = {"TL": "U", "TO": "W"} if rhs_same else tv3
+            out.append(translate_fn(sigs, where, fn_name, op, main[0], tables, ("qty", "TL"), tv, lean_name=lean_name))
+            out.append("")
+        section(go)
 
     template("codegen_impl_qty_sqared", "mul", "Template.sqared_mul", True)
     template("codegen_impl_qty_mul_qty", "mul", "Template.mul", False)
     template("codegen_impl_div_qties", "div", "Template.div", False)
+
     # ---------------- `Unit::as_qty`
-    uf = trait_fns(lib, "Unit")
-    if "as_qty" not in uf or len(uf["as_qty"]) != 1:
-        raise Untranslatable("src/lib.rs: Unit::as_qty not found")
-    out.append(translate_fn(sigs, "src/lib.rs", "Unit", "as_qty", uf["as_qty"][0],
-                            {"Self": "T", "Self::QuantityType": "T"}, ("unit", "T"), tvT, with_tables=False))
-    out.append("")
+    def as_qty():
+        if "as_qty" not in uf or len(uf["as_qty"]) != 1:
+            raise Untranslatable("src/lib.rs: Unit::as_qty not found")
+        out.append(translate_fn(sigs, "src/lib.rs", "Unit", "as_qty", uf["as_qty"][0],
+                                {"Self": "T", "Self::QuantityType": "T"}, ("unit", "T"), tvT, with_tables=False))
+        out.append("")
+    section(as_qty)
 
     # ---------------- symbol lookups
     tvS = {"S": "U"}
-    if "from_symbol" not in uf or len(uf["from_symbol"]) != 1:
-        raise Untranslatable("src/lib.rs: Unit::from_symbol not found")
-    out.append(translate_fn(sigs, "src/lib.rs", "Unit", "from_symbol", uf["from_symbol"][0],
-                            {"Self": "S"}, ("unit", "S"), tvS))
-    out.append("")
-    if "unit_from_symbol" not in qf or len(qf["unit_from_symbol"]) != 1:
-        raise Untranslatable("src/lib.rs: Quantity::unit_from_symbol not found")
-    out.append(translate_fn(sigs, "src/lib.rs", "Quantity", "unit_from_symbol", qf["unit_from_symbol"][0],
-                            {"Self": "S"}, ("qty", "S"), tvS))
-    out.append("")
+
+    def from_symbol():
+        if "from_symbol" not in uf or len(uf["from_symbol"]) != 1:
+            raise Untranslatable("src/lib.rs: Unit::from_symbol not found")
+        out.append(translate_fn(sigs, "src/lib.rs", "Unit", "from_symbol", uf["from_symbol"][0],
+                                {"Self": "S"}, ("unit", "S"), tvS))
+        out.append("")
+    section(from_symbol)
+
+    def unit_from_symbol():
+        if "unit_from_symbol" not in qf or len(qf["unit_from_symbol"]) != 1:
+            raise Untranslatable("src/lib.rs: Quantity::unit_from_symbol not found")
+        out.append(translate_fn(sigs, "src/lib.rs", "Quantity", "unit_from_symbol", qf["unit_from_symbol"][0],
+                                {"Self": "S"}, ("qty", "S"), tvS))
+        out.append("")
+    section(unit_from_symbol)
 
     # ---------------- which trait method each operator of a quantity type forwards to
     def by_header(impls, words, fn, what):
@@ -1435,80 +1465,109 @@ def run(repo):
            ("add", "impl Add < Self > for # qty_ident"), ("sub", "impl Sub < Self > for # qty_ident"),
            ("div", "impl Div < Self > for # qty_ident")]
     for kind, fn_name in kinds.items():
-        impls = impl_headers(quote_fns(mt, fn_name, where))
         for op, hd in ops:
-            if kind == "single" and op in ("eq", "partial_cmp"):
-                if any(h.split() == hd.split() for h, _ in impls):
-                    raise Untranslatable(f"{where}: {fn_name}: single-unit types now implement `{hd}`")
-                continue
-            out.append(translate_fn(sigs, where, f"Kind.{kind}", op, by_header(impls, hd, op, fn_name),
-                                    {"Self": "T", "Self::Output": "T"}, ("qty", "T"), tvT))
-            out.append("")
+            def go(kind=kind, fn_name=fn_name, op=op, hd=hd):
+                impls = impl_headers(quote_fns(mt, fn_name, where))
+                if kind == "single" and op in ("eq", "partial_cmp"):
+                    if any(h.split() == hd.split() for h, _ in impls):
+                        raise Untranslatable(f"{where}: {fn_name}: single-unit types now implement `{hd}`")
+                    return
+                out.append(translate_fn(sigs, where, f"Kind.{kind}", op, by_header(impls, hd, op, fn_name),
+                                        {"Self": "T", "Self::Output": "T"}, ("qty", "T"), tvT))
+                out.append("")
+            section(go)
 
     # ---------------- scalar operators and rate operators of `codegen_impl_std_traits`
-    std = impl_headers(quote_fns(mt, "codegen_impl_std_traits", where))
+    std = []
+
+    def std_impls():
+        std.extend(impl_headers(quote_fns(mt, "codegen_impl_std_traits", where)))
+    section(std_impls)
     tabs1 = {"Self": "T", "Self::Output": "T", "#qty_ident": "T"}
-    out.append(translate_fn(sigs, where, "Scalar", "amnt_mul_qty",
-                            by_header(std, "impl Mul < # qty_ident > for AmountT", "mul", "codegen_impl_std_traits"),
-                            tabs1, AMT, tvT))
-    out.append("")
-    out.append(translate_fn(sigs, where, "Scalar", "qty_mul_amnt",
-                            by_header(std, "impl Mul < AmountT > for # qty_ident", "mul", "codegen_impl_std_traits"),
-                            tabs1, ("qty", "T"), tvT))
-    out.append("")
-    out.append(translate_fn(sigs, where, "Scalar", "qty_div_amnt",
-                            by_header(std, "impl Div < AmountT > for # qty_ident", "div", "codegen_impl_std_traits"),
-                            tabs1, ("qty", "T"), tvT))
-    out.append("")
+
+    def scalar(lean_fn, hd, op, self_ty):
+        def go():
+            out.append(translate_fn(sigs, where, "Scalar", lean_fn, by_header(std, hd, op, "codegen_impl_std_traits"),
+                                    tabs1, self_ty, tvT))
+            out.append("")
+        section(go)
+
+    scalar("amnt_mul_qty", "impl Mul < # qty_ident > for AmountT", "mul", AMT)
+    scalar("qty_mul_amnt", "impl Mul < AmountT > for # qty_ident", "mul", ("qty", "T"))
+    scalar("qty_div_amnt", "impl Div < AmountT > for # qty_ident", "div", ("qty", "T"))
 
     # ---------------- src/rate.rs
     rt = tokenize(open(os.path.join(repo, "src/rate.rs"), encoding="utf-8").read())
     tvR = {"TT": "Nat", "TP": "Nat"}
-    j = find_block(rt, ["impl", "<", "TQ", ":", "Quantity", ",", "PQ", ":", "Quantity", ">", "Rate"])
-    if j < 0:
-        raise Untranslatable("src/rate.rs: `impl<TQ: Quantity, PQ: Quantity> Rate<TQ, PQ>` not found")
-    rf = functions_in(rt, j + 1, matching(rt, j))
     rtabs = {"TQ": "TT", "PQ": "TP", "Self::Output": "TT"}
+    rf = {}
+
+    def rate_impl():
+        j = find_block(rt, ["impl", "<", "TQ", ":", "Quantity", ",", "PQ", ":", "Quantity", ">", "Rate"])
+        if j < 0:
+            raise Untranslatable("src/rate.rs: `impl<TQ: Quantity, PQ: Quantity> Rate<TQ, PQ>` not found")
+        rf.update(functions_in(rt, j + 1, matching(rt, j)))
+    section(rate_impl)
     for n in ("new", "term_amount", "term_unit", "per_unit_multiple", "per_unit", "from_qty_vals", "reciprocal"):
-        if n not in rf or len(rf[n]) != 1:
-            raise Untranslatable(f"src/rate.rs: Rate::{n} not found")
-        out.append(translate_fn(sigs, "src/rate.rs", "Rate", n, rf[n][0], rtabs, RATE_TT, tvR, with_tables=False))
+        def go(n=n):
+            if n not in rf or len(rf[n]) != 1:
+                raise Untranslatable(f"src/rate.rs: Rate::{n} not found")
+            out.append(translate_fn(sigs, "src/rate.rs", "Rate", n, rf[n][0], rtabs, RATE_TT, tvR, with_tables=False))
+            out.append("")
+        section(go)
+
+    def rate_mul():
+        j = find_block(rt, ["impl", "<", "TQ", ":", "Quantity", ",", "PQ", ":", "Quantity", ">", "Mul", "<", "PQ", ">", "for", "Rate"])
+        if j < 0:
+            raise Untranslatable("src/rate.rs: `impl Mul<PQ> for Rate<TQ, PQ>` not found")
+        mf = functions_in(rt, j + 1, matching(rt, j))
+        if "mul" not in mf or len(mf["mul"]) != 1:
+            raise Untranslatable("src/rate.rs: Rate * PQ: fn mul not found")
+        out.append(translate_fn(sigs, "src/rate.rs", "Rate", "mul", mf["mul"][0], rtabs, RATE_TT, tvR, with_tables=False, qdiv=True))
         out.append("")
-    j = find_block(rt, ["impl", "<", "TQ", ":", "Quantity", ",", "PQ", ":", "Quantity", ">", "Mul", "<", "PQ", ">", "for", "Rate"])
-    if j < 0:
-        raise Untranslatable("src/rate.rs: `impl Mul<PQ> for Rate<TQ, PQ>` not found")
-    mf = functions_in(rt, j + 1, matching(rt, j))
-    if "mul" not in mf or len(mf["mul"]) != 1:
-        raise Untranslatable("src/rate.rs: Rate * PQ: fn mul not found")
-    out.append(translate_fn(sigs, "src/rate.rs", "Rate", "mul", mf["mul"][0], rtabs, RATE_TT, tvR, with_tables=False, qdiv=True))
-    out.append("")
-    out.append(translate_fn(sigs, where, "Template", "qty_mul_rate",
-                            by_header(std, "impl < TQ : Quantity > Mul < Rate < TQ , Self > > for # qty_ident", "mul",
-                                      "codegen_impl_std_traits"),
-                            {"Self": "TP", "TQ": "TT", "Self::Output": "TT"}, ("qty", "TP"), tvR, with_tables=False, qdiv=True))
-    out.append("")
-    out.append(translate_fn(sigs, where, "Template", "qty_div_rate",
-                            by_header(std, "impl < PQ : Quantity > Div < Rate < Self , PQ > > for # qty_ident", "div",
-                                      "codegen_impl_std_traits"),
-                            {"Self": "TT", "PQ": "TP", "Self::Output": "TP"}, ("qty", "TT"), tvR, with_tables=False, qdiv=True))
-    out.append("")
+    section(rate_mul)
+
+    def qty_mul_rate():
+        out.append(translate_fn(sigs, where, "Template", "qty_mul_rate",
+                                by_header(std, "impl < TQ : Quantity > Mul < Rate < TQ , Self > > for # qty_ident", "mul",
+                                          "codegen_impl_std_traits"),
+                                {"Self": "TP", "TQ": "TT", "Self::Output": "TT"}, ("qty", "TP"), tvR, with_tables=False, qdiv=True))
+        out.append("")
+    section(qty_mul_rate)
+
+    def qty_div_rate():
+        out.append(translate_fn(sigs, where, "Template", "qty_div_rate",
+                                by_header(std, "impl < PQ : Quantity > Div < Rate < Self , PQ > > for # qty_ident", "div",
+                                          "codegen_impl_std_traits"),
+                                {"Self": "TT", "PQ": "TP", "Self::Output": "TP"}, ("qty", "TT"), tvR, with_tables=False, qdiv=True))
+        out.append("")
+    section(qty_div_rate)
 
     # ---------------- src/converter.rs
-    ct = tokenize(open(os.path.join(repo, "src/converter.rs"), encoding="utf-8").read())
-    j = find_block(ct, ["impl", "<", "Q", ":", "Quantity", ",", "const", "N", ":", "usize", ">", "Converter"])
-    if j < 0:
-        raise Untranslatable("src/converter.rs: `impl Converter<Q> for ConversionTable<Q, N>` not found")
-    cf = functions_in(ct, j + 1, matching(ct, j))
-    if "convert" not in cf or len(cf["convert"]) != 1:
-        raise Untranslatable("src/converter.rs: fn convert not found")
-    out.append(translate_fn(sigs, "src/converter.rs", "ConversionTable", "convert", cf["convert"][0],
-                            {"Q": "T"}, ("convtable", "T"), {"T": "Nat"}, with_tables=False))
-    out.append("")
-    # ---------------- ordering of the units in `analyze`
+    def converter():
+        ct = tokenize(open(os.path.join(repo, "src/converter.rs"), encoding="utf-8").read())
+        j = find_block(ct, ["impl", "<", "Q", ":", "Quantity", ",", "const", "N", ":", "usize", ">", "Converter"])
+        if j < 0:
+            raise Untranslatable("src/converter.rs: `impl Converter<Q> for ConversionTable<Q, N>` not found")
+        cf = functions_in(ct, j + 1, matching(ct, j))
+        if "convert" not in cf or len(cf["convert"]) != 1:
+            raise Untranslatable("src/converter.rs: fn convert not found")
+        out.append(translate_fn(sigs, "src/converter.rs", "ConversionTable", "convert", cf["convert"][0],
+                                {"Q": "T"}, ("convtable", "T"), {"T": "Nat"}, with_tables=False))
+        out.append("")
+    section(converter)
+
+    # ---------------- ordering of the units in `analyze`, code generator loops
     out.append("section")
     out.append("open MacroFront")
-    out += translate_analyze(mt, where)
-    out += translate_codegen(mt, where)
+
+    def analyze():
+        out.extend(translate_analyze(mt, where))
+    section(analyze)
+
+    def codegen():
+        out.extend(translate_codegen(mt, where))
+    section(codegen)
     out.append("end")
     out.append("")
     out.append("end Qty.Gen.Algos")
